@@ -2227,3 +2227,118 @@ func rulePlaceholderAllExits(c *Ctx, r *Report) {
 	}
 	r.analysed(rule, fmt.Sprintf("%d parser methods read an atom token and return a term", n))
 }
+
+// ---------------------------------------------------------------------------
+// R-SOLUTIONS-HAS-SEARCH (C12; added after seed C12i, which leans on fix F59): Close waits until the search goroutine
+// has closed the answer channel, Next hands it a request and waits for an answer: every *Solutions the library
+// hands out with channels in it has a goroutine on the other end. In the function that starts the search, the `go`
+// statement lies on every path to a return of the Solutions it built (it dominates the return). A "nothing to do"
+// fast path that returns before the goroutine exists makes the first Close wait forever.
+func ruleSolutionsHasSearch(c *Ctx, r *Report) {
+	const rule = "R-SOLUTIONS-HAS-SEARCH"
+	desc := "a Solutions with channels is never handed out without the goroutine that serves them"
+	n := 0
+	for _, fn := range c.LibFuncs() {
+		if fn.Parent() != nil || funcPkg(fn) != c.Root {
+			continue
+		}
+		var gos []*ssa.Go
+		eachInstr(fn, func(in ssa.Instruction) {
+			if g, ok := in.(*ssa.Go); ok {
+				gos = append(gos, g)
+			}
+		})
+		if len(gos) == 0 {
+			continue
+		}
+		eachInstr(fn, func(in ssa.Instruction) {
+			ret, ok := in.(*ssa.Return)
+			if !ok || len(ret.Results) == 0 {
+				return
+			}
+			// a return of a Solutions allocated in this function
+			built := false
+			for _, l := range c.originSet(ret.Results[0]) {
+				if a, ok := l.(*ssa.Alloc); ok && isNamedIn(deref(a.Type()), rootPkgPath, "Solutions") {
+					built = true
+				}
+			}
+			if !built {
+				return
+			}
+			n++
+			key := fmt.Sprintf("%s/return-of-Solutions#%d", fname(fn), n)
+			started := false
+			for _, g := range gos {
+				gb, rb := g.Block(), in.Block()
+				if (gb == rb && instrIndex(g) < instrIndex(in)) || (gb != rb && gb.Dominates(rb)) {
+					started = true
+				}
+			}
+			if started {
+				r.ok(rule, key, c.at(in), desc, "the go statement dominates this return", true)
+			} else {
+				r.bad(rule, key, c.at(in), desc, "this return hands out the Solutions on a path that has not started the search goroutine: nobody closes the answer channel Close waits for, nobody receives the request Next sends")
+			}
+		})
+	}
+	if n == 0 {
+		r.undecided(rule, "scan/returns-of-Solutions", "-", desc, "no function of the root package starts a goroutine and returns a Solutions it built")
+	}
+}
+
+// ---------------------------------------------------------------------------
+// R-PLACEHOLDER-REGISTERED (C15; added after seed C15i): "a count mismatch between placeholders and arguments is an
+// error" - also the mismatch "some placeholders, no arguments". The parser counts placeholders only once the
+// placeholder atom is registered: in SetPlaceholder the store to the parser's placeholder field lies on every path
+// to a successful return. An early `return nil` for an empty argument list reads every `?` of the text as the atom.
+func rulePlaceholderRegistered(c *Ctx, r *Report) {
+	const rule = "R-PLACEHOLDER-REGISTERED"
+	desc := "SetPlaceholder registers the placeholder on every path on which it succeeds"
+	fn := c.method("Parser", "SetPlaceholder")
+	if fn == nil {
+		r.undecided(rule, "anchor:Parser.SetPlaceholder", "-", desc, "not found")
+		return
+	}
+	var stores []*ssa.Store
+	eachInstr(fn, func(in ssa.Instruction) {
+		if st, ok := in.(*ssa.Store); ok {
+			if fa, ok := st.Addr.(*ssa.FieldAddr); ok && fa.X == ssa.Value(fn.Params[0]) && fieldName(fa) == "placeholder" {
+				stores = append(stores, st)
+			}
+		}
+	})
+	n := 0
+	eachInstr(fn, func(in ssa.Instruction) {
+		ret, ok := in.(*ssa.Return)
+		if !ok || len(ret.Results) != 1 {
+			return
+		}
+		success := false
+		for _, l := range c.originSet(ret.Results[0]) {
+			if isNilConst(l) {
+				success = true
+			}
+		}
+		if !success {
+			return
+		}
+		n++
+		key := fmt.Sprintf("%s/success-return#%d", fname(fn), n)
+		reg := false
+		for _, st := range stores {
+			sb, rb := st.Block(), in.Block()
+			if (sb == rb && instrIndex(st) < instrIndex(in)) || (sb != rb && sb.Dominates(rb)) {
+				reg = true
+			}
+		}
+		if reg {
+			r.ok(rule, key, c.at(in), desc, "the store to Parser.placeholder dominates this return", true)
+		} else {
+			r.bad(rule, key, c.at(in), desc, "SetPlaceholder succeeds here without having registered the placeholder: the text's `?` are read as atoms and the missing arguments go unnoticed")
+		}
+	})
+	if n == 0 {
+		r.undecided(rule, fname(fn)+"/success-returns", c.Pos(fn.Pos()), desc, "no successful return found")
+	}
+}
